@@ -16,6 +16,15 @@ Theorem C09_location_independent : forall q e sg cfg ab lead rel lg raw,
 Proof. exact file_location_independent. Qed.
 Print Assumptions C09_location_independent.
 
+(* the same for ANY spelling that resolves to the file, e.g. `mod.py` / `../mod.py` typed in a sub-directory of the project *)
+Theorem C09_location_independent_any_spelling : forall q e sg cfg g rel lg raw,
+  flags_off q -> name_of (g_parts g) = name_of rel ->
+  resolve (e_cwd e) g = e_root e ++ rel ->
+  file_result q e sg cfg {| f_given := g; f_lang := lg; f_raw := raw |}
+  = spec_file (e_root_pats e) sg cfg {| s_rel := rel; s_lang := lg; s_raw := raw |}.
+Proof. exact file_location_independent_gen. Qed.
+Print Assumptions C09_location_independent_any_spelling.
+
 Theorem C09_run_location_independent : forall q e sg cfg files sfiles,
   flags_off q -> Forall2 (denotes e) files sfiles ->
   run_result q e sg cfg files = spec_result (e_root_pats e) sg cfg sfiles.
@@ -126,6 +135,7 @@ Definition ex_env : env := {| e_root := ["srv"; "work"; "proj"]; e_cwd := ["home
 Example C09_nonvacuous :
   resolve (e_cwd ex_env) (GP true (["srv"; "work"; "proj"] ++ ["src"; "mod.ts"])) = ["srv"; "work"; "proj"] ++ ["src"; "mod.ts"]
   /\ resolve ["srv"; "elsewhere"] (GP false ([".."; "work"; "proj"] ++ ["src"; "mod.ts"])) = ["srv"; "work"; "proj"] ++ ["src"; "mod.ts"]
+  /\ resolve ["srv"; "work"; "proj"; "src"; "sub"] (GP false [".."; "mod.ts"]) = ["srv"; "work"; "proj"] ++ ["src"; "mod.ts"]
   /\ existsb excl_comp ["srv"; "work"; "proj"] = false
   /\ pats_clean (cs_ikind ex_sig) (ignore_pats ex_sig (Some ["tests/"; "*_test.py"])) (rooted ["srv"; "work"; "proj"] ++ String slash "") ["src"; "mod.ts"] = true
   /\ tspec_simple (tspec_of ex_sig LTs) = true
